@@ -138,6 +138,111 @@ for last = range ch {
 }
 YIELD(last)
 RETNIL`, "range-form:k="),
+		func() *e1.Program {
+			p := G("range-huge-unsigned-bounds-left-by-break", `
+for i := range uint64(math.MaxUint64) {
+	YIELD(int(i))
+	if i == 2 {
+		break
+	}
+}
+n := 0
+for i := range uint(1) << 63 {
+	n += int(i) + 1
+	if i == 3 {
+		break
+	}
+}
+YIELD(n)
+var small uint8 = 255
+c := 0
+for range small {
+	c++
+}
+YIELD(c)
+var m int8 = 127
+for i := range m {
+	if i >= 125 {
+		YIELD(int(i))
+	}
+}
+RETNIL`, "range:int", "range:typed-int")
+			p.Imports = []string{"math"}
+			p.MaxMoves = 20
+			return p
+		}(),
+		Raw("range-native-left-kinds-with-break-continue", `
+func §each[S ~[]int](s S, stop int) ITER[int] GEN[int]{
+	for i := 0; i < 2; i++ {
+		YIELD(100 + i)
+		sum := 0
+		for _, v := range s {
+			if v == stop {
+				break
+			}
+			if v%2 == 0 {
+				continue
+			}
+			sum += v
+		}
+		YIELD(sum)
+	}
+	RETNIL
+}GEN
+func §gen() ITER[int] GEN[int]{
+	arr := [4]int{1, 2, 3, 4}
+	sq := func(yield func(int) bool) {
+		for i := 0; i < 4; i++ {
+			if !yield(i) {
+				return
+			}
+		}
+	}
+	for r := 0; r < 2; r++ {
+		YIELD(r)
+		n := 0
+		for i, v := range &arr {
+			if i == 0 {
+				continue
+			}
+			if v == 4 {
+				break
+			}
+			n += v
+		}
+		YIELD(n)
+		for v := range sq {
+			if v == 2 {
+				break
+			}
+			n += 10
+		}
+		YIELD(n)
+	}
+	YFROM(§each([]int{1, 2, 3, 5, 7}, 5))
+	RETNIL
+}GEN
+`+StdEntry, "range:native-left"),
+		G("range-two-sibling-non-yielding-loops", `
+total := 0
+for _, v := range []int{1, 2, 3} {
+	total += v
+}
+for i := range "ab" {
+	total += i
+}
+for k := range map[int]int{4: 1} {
+	total += k
+}
+YIELD(total)
+for _, v := range []int{5} {
+	YIELD(v)
+}
+for _, v := range []int{6} {
+	total += v
+}
+YIELD(total)
+RETNIL`, "range:siblings"),
 		G("range-slice-of-slices-nested", `
 xss := [][]int{{1, 2}, {}, {3}}
 for i, xs := range xss {
